@@ -258,8 +258,15 @@ CLAIMED = {
         "iterations: weak set = complement of the weight filter; every non-weak non-zero peak is unmatched or in exactly one "
         "match, never both; weak non-zero peaks are in neither; the zero point is not reported unmatched once a match "
         "exists; progress measure of a matching step; post-conditions of returned matches from the final check after the "
-        "final weighted optimise (source pinned) with C06. NOT proved: completeness of the first match on noise-free "
-        "lattices (figure of merit, float geometry) - oracle only. hdbscan replaced by a deterministic stand-in.",
+        "final weighted optimise (source pinned) with C06. One candidate pair of _do_match (_match_all + _tumble with its four "
+        "checks and two fits) is modelled in exact rational arithmetic (Model.tumble; lengths as squares, the angle test as "
+        "sin^2(min_angle)|a|^2|b|^2 < det^2) and compared with the real _tumble on every run; proved for it: every returned "
+        "match passes check (>= min_match peaks, lengths and angle in range), consists of working-set peaks, has one integer "
+        "index pair per peak and satisfies the weighted normal equations of its own peaks (tumble_post); from a candidate "
+        "pair whose first round catches only node peaks of a noise-free lattice it returns the EXACT lattice with all strong "
+        "node peaks and their true indices (tumble_exact, shares exact_stages with C05). NOT proved: that the figure of merit "
+        "prefers that candidate, i.e. completeness of the FIRST match on noise-free lattices - oracle only. hdbscan replaced "
+        "by a deterministic stand-in.",
         "Lean kernel + standard axioms; translator; A-CL (clusterer stand-in); oracle answers are recorded from the real run.",
         "Lean 4 proof (loop invariant by induction over recorded oracle answers) + replay correspondence + cloud oracle",
         "DESIGN.md §7 C12"),
